@@ -11,12 +11,17 @@
                    real constraint carried (read with BoundaryConstraint::cc())
        groups      real groups of the first permutation: members (assertion indexes) and the value of
                    BoundaryConstraintGroup::evaluate_at(state, x_t) for every t
+       cnum, cz    per assertion and coset step i: T_col(x_i) - b_a(x_i) and Z_a(x_i) (Boundary.tla), where T
+                   is the trace polynomial of the asserted column in the trace handed to the prover
+       comp        the prover's composition trace (DefaultConstraintEvaluator::evaluate, all transition
+                   constraints identically zero) at those coset steps; <<>> when it was not run
    An event is explained iff
        Bijection     every permutation's assignment uses every coefficient exactly once
        OrderFree     all permutations give the same assignment                 (the property)
        Partition     the groups partition the assertions; members of a group lie in one segment and
                      share their asserted steps (one divisor per group)
        GroupValue    value = (SUM_{a in group} cc[assign[a]] * C_a(x_t, state)) / Z(x_t)   by definition
+       CompValue     comp_i = SUM_a cc[assign[a]] * (T_col(x_i) - b_a(x_i)) / Z_a(x_i)    (prover's evaluator)
    Why(e) names the first conjunct that fails; it is printed with the index of the rejected event. *)
 EXTENDS FieldP, TLC, Json, IOUtils, FiniteSets
 
@@ -47,9 +52,17 @@ GroupValue(e) ==
     \A t \in 1..Len(e.groups[g].vals) :
       El(e.groups[g].vals[t], e.d) = EDiv(e.P, Sum(e, m, t, 1), El(e.z[m[1]][t], e.d))
 
-Explains(e) == Bijection(e) /\ OrderFree(e) /\ Partition(e) /\ GroupValue(e)
+Base(v, d) == [t \in 1..d |-> IF t = 1 THEN v ELSE 0]
+RECURSIVE CSum(_, _, _)
+CSum(e, i, a) ==
+  IF a > e.n THEN EZero(e.d)
+  ELSE EAdd(e.P, EDiv(e.P, EMul(e.P, El(e.cc[e.assign[1][a]], e.d), El(e.cnum[a][i], e.d)), Base(e.cz[a][i], e.d)), CSum(e, i, a + 1))
+CompValue(e) == \A i \in 1..Len(e.comp) : El(e.comp[i], e.d) = CSum(e, i, 1)
+
+Explains(e) == Bijection(e) /\ OrderFree(e) /\ Partition(e) /\ GroupValue(e) /\ CompValue(e)
 Why(e) == IF ~Bijection(e) THEN "Bijection" ELSE IF ~OrderFree(e) THEN "OrderFree"
-          ELSE IF ~Partition(e) THEN "Partition" ELSE IF ~GroupValue(e) THEN "GroupValue" ELSE "explained"
+          ELSE IF ~Partition(e) THEN "Partition" ELSE IF ~GroupValue(e) THEN "GroupValue"
+          ELSE IF ~CompValue(e) THEN "CompValue" ELSE "explained"
 
 Init == l = 1
 Next == l <= Len(Rec) /\ Explains(Rec[l]) /\ l' = l + 1
